@@ -18,7 +18,7 @@ META = {
                    "(4) the SVD wrapper returns factors of its argument in both orientation branches; (5) core/remainder "
                    "shapes are typed by the contraction checker (E5 obligations).",
     "assumptions": ["accuracy of torch.linalg.svd / numpy.linalg.svd", "floating-point roundoff is outside the claim"],
-    "floors": {"E4-ALLOWANCE": 1, "E4-EPSFLOW": 5, "CMP-TOTAL": 1, "RANK-CAP": 4, "SVD-WRAP": 2},
+    "floors": {"NARROW": 8, "E4-ALLOWANCE": 1, "E4-EPSFLOW": 5, "CMP-TOTAL": 1, "RANK-CAP": 4, "SVD-WRAP": 2},
 }
 ANCHORS = ["_decomposition.to_tt", "_decomposition.mat_to_tt", "_decomposition.rank_chop", "_decomposition.SVD",
            "_tt_base.TT.__init__"]
@@ -305,4 +305,12 @@ def check(model: Model, tier: str):
         obs += e5ob.for_property(model, "C01", tier)
     except ImportError:
         pass
+    # complex sources are decomposed as complex: no narrowing conversion on the data path
+    from ..dtypekind import rule_narrow, self_fixture
+    obs += rule_narrow(model, [model.func(a) for a in ("_tt_base.TT.__init__", "_decomposition.to_tt", "_decomposition.mat_to_tt", "_decomposition.SVD",
+                                                       "_decomposition.QR", "_decomposition.lr_orthogonal", "_decomposition.rl_orthogonal")])
+    fx = dict(self_fixture())
+    okfx = any(o.status == VIOLATED for o in fx.get("f", [])) and all(o.status == OK for o in fx.get("g", []))
+    obs.append(Ob("NARROW", "fixture:NARROW:positive-example", OK if okfx else ERROR, "ttsa/dtypekind.py", "self_fixture",
+                  "the built-in positive example is flagged and its guarded twin is not" if okfx else "the NARROW rule no longer recognises its positive example"))
     return obs, {"functions": ANCHORS}
